@@ -13,7 +13,7 @@ from .lang import Roles
 from .origin import Origins, show, walk
 from .templates import templates_of
 from .util import Vars, reaches_without
-from . import p_c01, p_c09, witness
+from . import p_c01, p_c02, p_c09, witness
 
 LEVEL = "other"
 EXPLANATION = (
@@ -508,4 +508,9 @@ RULES += [
     ("C03.UNITS", "every emitted control target is a block index; the loop bound is the block count", rule_units),
     ("C03.CODEC", "restored stack values are embedded as quoted Display text and read back by its inverse", p_c09.rule_embed),
     ("C03.CODEC2", "Num::from_string inverts Display for every shape", p_c09.rule_num_codec),
+]
+
+RULES += [
+    ("C03.PRESTATE", "the state a level-2 program resumes from is the state before the abandoned command (roll-back of pre-execution)", p_c02.rule_rollback),
+    ("C03.PRESIB", "pre-execution agrees with the interpreter command by command", p_c02.rule_sib),
 ]
